@@ -19,11 +19,19 @@
 (* pinned code); "first": only the one that wins an atomic flag (repaired). *)
 (***************************************************************************)
 EXTENDS Naturals, FiniteSets
-CONSTANTS Stoppers, CloseRule
+CONSTANTS Stoppers, CloseRule,
+          StartRule       \* "flagfirst": Plot sets the plotting flag and creates the stop channel afterwards (pinned code);
+                          \* "together": both become visible in one step (repaired)
 VARIABLES plotting, ch, plot, pc, closing, panicked
 vars == <<plotting, ch, plot, pc, closing, panicked>>
 
-Init == plotting = TRUE /\ ch = "open" /\ plot = "running" /\ pc = [s \in Stoppers |-> "idle"] /\ closing = FALSE /\ panicked = FALSE
+\* the plot is being started: with "flagfirst" the flag is already set and there is no channel yet
+Init == /\ pc = [s \in Stoppers |-> "idle"] /\ closing = FALSE /\ panicked = FALSE
+        /\ IF StartRule = "flagfirst" THEN plotting = TRUE /\ ch = "none" /\ plot = "starting"
+           ELSE plotting = TRUE /\ ch = "open" /\ plot = "running"
+\* Plot()'s second half (flagfirst only): the channel is created, the plot goroutine starts
+PlotStarts == /\ plot = "starting" /\ ~panicked /\ plot' = "running" /\ ch' = "open"
+              /\ UNCHANGED <<plotting, pc, closing, panicked>>
 
 \* StopPlot(): the flag is read; not plotting: answered at once
 Check(s) == /\ pc[s] = "idle" /\ ~panicked
@@ -32,11 +40,13 @@ Check(s) == /\ pc[s] = "idle" /\ ~panicked
 \* the spawned goroutine deals with the channel
 Close(s) == /\ pc[s] = "checked" /\ ~panicked
             /\ IF CloseRule = "always" THEN
-                 /\ (IF ch = "closed" THEN panicked' = TRUE /\ ch' = ch ELSE ch' = "closed" /\ panicked' = panicked)
+                 /\ (IF ch \in {"closed", "none"} THEN panicked' = TRUE /\ ch' = ch ELSE ch' = "closed" /\ panicked' = panicked)
                  /\ closing' = closing
                ELSE
-                 /\ (IF closing THEN ch' = ch ELSE ch' = "closed")
-                 /\ closing' = TRUE /\ panicked' = panicked
+                 /\ (IF closing THEN ch' = ch /\ panicked' = panicked
+                     ELSE IF ch = "none" THEN ch' = ch /\ panicked' = TRUE          \* close of a nil channel
+                     ELSE ch' = "closed" /\ panicked' = panicked)
+                 /\ closing' = TRUE
             /\ pc' = [pc EXCEPT ![s] = "closed"]
             /\ UNCHANGED <<plotting, plot>>
 \* wg.Wait(): returns once the plot goroutine has ended
@@ -47,7 +57,7 @@ Wait(s) == /\ pc[s] = "closed" /\ plot = "ended" /\ ~panicked
 PlotEnds == /\ plot = "running" /\ ch = "closed" /\ ~panicked
             /\ plot' = "ended" /\ plotting' = FALSE
             /\ UNCHANGED <<ch, pc, closing, panicked>>
-Next == (\E s \in Stoppers : Check(s) \/ Close(s) \/ Wait(s)) \/ PlotEnds
+Next == (\E s \in Stoppers : Check(s) \/ Close(s) \/ Wait(s)) \/ PlotEnds \/ PlotStarts
 Spec == Init /\ [][Next]_vars /\ WF_vars(Next)
 
 NoPanic == ~panicked
